@@ -391,7 +391,8 @@ void runJob(const Job& job, const bool traceBuild, Report& rep, Progress& pg){
     // graph + visited states for the TLC cross-check (models/TaskFlow.tla)
     if(job.mode == 0 && !ex.stats.capped && getenv("VF_DUMP_GRAPH_DIR")){
         Outcome o0; const auto tr0 = jr.runOnce({}, vfs::DeferFifo, o0);
-        const std::string path = std::string(getenv("VF_DUMP_GRAPH_DIR")) + "/" + (traceBuild ? "trace-" : "fast-") + job.name + "-W" + std::to_string(job.nbWorkers) + ".graph.json";
+        std::string execTag = ExecName; for(char& ch : execTag) if(!isalnum((unsigned char)ch)) ch = '_';
+        const std::string path = std::string(getenv("VF_DUMP_GRAPH_DIR")) + "/" + execTag + "-" + (traceBuild ? "trace-" : "fast-") + job.name + "-W" + std::to_string(job.nbWorkers) + ".graph.json";
         std::ofstream f(path);
         f << "{\"exec\": \"" << ExecName << "\", \"job\": \"" << job.name << "\", \"N\": " << tr0.tasks.size() << ", \"ordered\": [";
         bool first = true;
